@@ -15,7 +15,7 @@ use serde_json::json;
 pub const SPEC: PropSpec = PropSpec {
 	id: "C18",
 	level: "exploration",
-	rule: "case = schema A (random, incl. same short names in different namespaces) + value: to_single_object (into a Vec and into a sink accepting 1..4096 bytes per write call, with / without its own write_vectored) and to_single_object_vec must equal C3 01 ++ LE(bitwise CRC-64-AVRO of the reference canonical form) ++ to_datum(v); reading it back (slice and chunked reader) gives v; then (a) each of the 10 header bytes altered, (b) every truncation length 0..=min(len,24), (c) a schema B derived from A by one canonical-form-changing edit (rename a type / field, swap two fields, change a symbol or a fixed size, reorder union branches, edit inside the second of two same-short-name types) must reject A's message, (d) a re-spelling of A (other namespace notation, doc/aliases, logical type dropped or added) must accept it; distinct by hash(schema shape, message, edit)",
+	rule: "case = schema A (random, incl. same short names in different namespaces) + value: to_single_object (into a Vec and into a sink accepting 1..4096 bytes per write call, with / without its own write_vectored) and to_single_object_vec must equal C3 01 ++ LE(bitwise CRC-64-AVRO of the reference canonical form) ++ to_datum(v); reading it back (slice and chunked reader) gives v; then (a) each of the 10 header bytes altered six ways (one low bit, the high bit, all bits, bit 4, forced to 0x00, forced to 0xFF), (b) every truncation length 0..=min(len,24), (c) a schema B derived from A by one canonical-form-changing edit (rename a type / field, swap two fields, change a symbol or a fixed size, reorder union branches, edit inside the second of two same-short-name types) must reject A's message, (d) a re-spelling of A (other namespace notation, doc/aliases, logical type dropped or added) must accept it; distinct by hash(schema shape, message, edit)",
 	assumptions: &["a CRC collision between different canonical forms would be counted as inconclusive, not as a violation"],
 	cases: (50_000_000, 4_000_000_000),
 	secs: (30, 600),
@@ -252,9 +252,17 @@ pub fn run_case(ctx: &mut Ctx, case_seed: u64) {
 	}
 	ctx.count("roundtrip_ok");
 	// ---- header corruptions
-	for k in 0..10 {
+	for (k, alt) in (0..10).flat_map(|k| [0x01u8, 0x80, 0xFF, 0x10, 0x00, 0x02].into_iter().map(move |a| (k, a))) {
 		let mut bad = so.clone();
-		bad[k] ^= *rng.pick(&[0x01u8, 0x80, 0xFF, 0x10]);
+		// single-bit and all-bit changes, plus the byte forced to 0x00 and to 0xFF
+		match alt {
+			0x00 => bad[k] = 0x00,
+			0x02 => bad[k] = 0xFF,
+			x => bad[k] ^= x,
+		}
+		if bad[k] == so[k] {
+			continue;
+		}
 		let r1 = serde_avro_fast::from_single_object_slice::<AnyOwned>(&bad, &schema).is_ok();
 		let r2 = serde_avro_fast::from_single_object_reader::<_, AnyOwned>(ChunkedBufRead::new(&bad, vec![1 + rng.below(4)]), &schema).is_ok();
 		if r1 || r2 {
